@@ -3,7 +3,7 @@ import LlirModel.Drv.Core2Ops
 /-! Line-protocol descriptors of M-Core-3 functions.
     `core3.print <ret ty> <hexname> <params> <blocks>`
     ident: `N<hex>` | `I<num>`;  params: `-` or `<ty>~<ident>` joined by `|`;  blocks joined by `/`, a block is `<ident>^<inst>^...^<term>`;
-    inst: `<ident or _>:<row>:<args>` (switch, invoke, landingpad: `…:<args>:<continuation lines>`, see parseExtD) with args joined by `!` (or `-`): `T<ty>` | `P<ty>=<operand>` | `V<operand>` | `L<ident>` | `R` | `R<ty>=<operand>` | `H<operand>~<ident>&...` (phi incoming list) | `K<n>,<n>…` (index path) | `A` / `A<n>` (no / an alignment) | `F<i>,<i>…` (flag keywords by position in the row's list) | `G<ty>=<operand>&…` (typed index list);
+    inst: `<ident or _>:<row>:<args>` (switch, invoke, landingpad: `…:<args>:<continuation lines>`, see parseExtD) with args joined by `!` (or `-`): `T<ty>` | `P<ty>=<operand>` | `V<operand>` | `L<ident>` | `R` | `R<ty>=<operand>` | `H<operand>~<ident>&...` (phi incoming list) | `K<n>,<n>…` (index path) | `A` / `A<n>` (no / an alignment) | `F<i>,<i>…` (flag keywords by position in the row's list) | `W<i>` (the keyword of a `kw` slot by position: atomic ordering, atomicrmw operation) | `O` / `O<i>` (no / an optional keyword: the ordering of an atomic load / store) | `G<ty>=<operand>&…` (typed index list);
     operand: `%<ident>` | `#<const descriptor>` | `@<hexname>` (a global variable or function of the module: M-Whole only) -/
 namespace Llir.Drv
 open Llir Llir.Types Llir.Core2 Llir.Core3
@@ -40,6 +40,9 @@ def parseArgD (s : String) : Option Arg :=
   | 'G' :: r => ((String.ofList r).splitOn "&").mapM (fun (it : String) => parseTyOperand it) |>.map .tyvals
   | ['F'] => some (.flags [])
   | 'F' :: r => ((String.ofList r).splitOn ",").mapM (fun (x : String) => x.toNat?) |>.map .flags
+  | 'W' :: r => (String.ofList r).toNat?.map .kw
+  | ['O'] => some (.okw none)
+  | 'O' :: r => (String.ofList r).toNat?.map fun n => .okw (some n)
   | ['A'] => some (.align none)
   | 'A' :: r => (String.ofList r).toNat?.map fun n => .align (some n)
   | 'H' :: r =>
